@@ -132,7 +132,8 @@ def cfgs(i):
     """a rotating choice of bundle configurations"""
     table = [dict(iso=False), dict(iso=True), dict(iso=False, transform=b'upper'), dict(iso=True, formatter=b'num'),
              dict(iso=False, flavour=b'concurrent'), dict(iso=False, transform=b'brackets'), dict(iso=True, flavour=b'concurrent'),
-             dict(iso=False, formatter=b'num')]
+             dict(iso=False, formatter=b'num'), dict(iso=False, formatter=b'all'), dict(iso=True, formatter=b'all'),
+             dict(iso=False, formatter=b'all', transform=b'upper')]
     return table[i % len(table)]
 
 
